@@ -10,6 +10,9 @@
         open spec fn self_delimiting() -> bool { false }
         open spec fn dec_rel(b: Seq<u8>, v: &Subs, k: int) -> bool { true }
         open spec fn dec_total() -> bool { false }
+        /// the tag loop stops only at the end of the input, in front of something that is no tag, or in front of a tag that
+        /// is not one of this struct's non-repeatable fields
+        open spec fn dec_stop(rest: Seq<u8>) -> bool { rest.len() == 0 || (match <zvt_builder::encoding::Default as zvt_builder::encoding::Encoding<zvt_builder::Tag>>::spec_dec(rest) { None => true, Some((t, _)) => t.0 != 65u16 && t.0 != 67u16 }) }
         /// the tag loop is specified by totality and frame clauses only
         open spec fn functional() -> bool { false }
         //@ fn exp:zvt | impl zvt_builder::encoding::Encoding<Subs> for zvt_builder::encoding::Default | encode | mod=packets::tlv props=C03
@@ -22,6 +25,10 @@
         //@ tag tags.bookkeeping C13
                     actual_tags@ =~= seen,
                     required_tags@ =~= Set::<u16>::empty().difference(seen),
+        //@ tag tags.stop C13
+                    curr_len == bytes@.len() ==> <zvt_builder::encoding::Default as zvt_builder::encoding::Encoding<Subs>>::dec_stop(bytes@),
+                ensures
+                    <zvt_builder::encoding::Default as zvt_builder::encoding::Encoding<Subs>>::dec_stop(bytes@),
         //@ tag tags.loop.decreases C02
                 decreases bytes@.len() + (if curr_len != bytes@.len() { 1nat } else { 0nat }),
         //@ entry
@@ -74,6 +81,9 @@
         open spec fn self_delimiting() -> bool { false }
         open spec fn dec_rel(b: Seq<u8>, v: &SubsOnCard, k: int) -> bool { true }
         open spec fn dec_total() -> bool { false }
+        /// the tag loop stops only at the end of the input, in front of something that is no tag, or in front of a tag that
+        /// is not one of this struct's non-repeatable fields
+        open spec fn dec_stop(rest: Seq<u8>) -> bool { rest.len() == 0 || (match <zvt_builder::encoding::Default as zvt_builder::encoding::Encoding<zvt_builder::Tag>>::spec_dec(rest) { None => true, Some((t, _)) => true }) }
         /// the tag loop is specified by totality and frame clauses only
         open spec fn functional() -> bool { false }
         //@ fn exp:zvt | impl zvt_builder::encoding::Encoding<SubsOnCard> for zvt_builder::encoding::Default | encode | mod=packets::tlv props=C03
@@ -86,6 +96,10 @@
         //@ tag tags.bookkeeping C13
                     actual_tags@ =~= seen,
                     required_tags@ =~= Set::<u16>::empty().difference(seen),
+        //@ tag tags.stop C13
+                    curr_len == bytes@.len() ==> <zvt_builder::encoding::Default as zvt_builder::encoding::Encoding<SubsOnCard>>::dec_stop(bytes@),
+                ensures
+                    <zvt_builder::encoding::Default as zvt_builder::encoding::Encoding<SubsOnCard>>::dec_stop(bytes@),
         //@ tag tags.loop.decreases C02
                 decreases bytes@.len() + (if curr_len != bytes@.len() { 1nat } else { 0nat }),
         //@ entry
@@ -95,6 +109,10 @@
         //@ before (subs,bytes)=<
         //@ tag tags.no_second_dispatch.subs C13
             proof { assert(!seen.contains(96u16)); seen = seen.insert(96u16) ; }
+            let ghost b_pre = bytes@;
+        //@ after (subs,bytes)=<
+        //@ tag tags.stop C13
+            proof { if curr_len == bytes@.len() { crate::frame::lemma_tail_same_len(bytes@, b_pre); } }
         //@ before returnErr(zvt_builder::ZVTError::DuplicateTag(zvt_builder::Tag(96u16)
         //@ tag tags.duplicate_error_is_true.subs C13
             proof { assert(seen.contains(96u16)) ; }
@@ -132,6 +150,9 @@
         open spec fn self_delimiting() -> bool { false }
         open spec fn dec_rel(b: Seq<u8>, v: &StatusInformation, k: int) -> bool { true }
         open spec fn dec_total() -> bool { false }
+        /// the tag loop stops only at the end of the input, in front of something that is no tag, or in front of a tag that
+        /// is not one of this struct's non-repeatable fields
+        open spec fn dec_stop(rest: Seq<u8>) -> bool { rest.len() == 0 || (match <zvt_builder::encoding::Default as zvt_builder::encoding::Encoding<zvt_builder::Tag>>::spec_dec(rest) { None => true, Some((t, _)) => t.0 != 76u16 && t.0 != 7947u16 && t.0 != 7956u16 && t.0 != 8005u16 && t.0 != 8012u16 && t.0 != 8013u16 && t.0 != 8015u16 && t.0 != 8016u16 && t.0 != 98u16 }) }
         /// the tag loop is specified by totality and frame clauses only
         open spec fn functional() -> bool { false }
         //@ fn exp:zvt | impl zvt_builder::encoding::Encoding<StatusInformation> for zvt_builder::encoding::Default | encode | mod=packets::tlv props=C03
@@ -144,6 +165,10 @@
         //@ tag tags.bookkeeping C13
                     actual_tags@ =~= seen,
                     required_tags@ =~= Set::<u16>::empty().difference(seen),
+        //@ tag tags.stop C13
+                    curr_len == bytes@.len() ==> <zvt_builder::encoding::Default as zvt_builder::encoding::Encoding<StatusInformation>>::dec_stop(bytes@),
+                ensures
+                    <zvt_builder::encoding::Default as zvt_builder::encoding::Encoding<StatusInformation>>::dec_stop(bytes@),
         //@ tag tags.loop.decreases C02
                 decreases bytes@.len() + (if curr_len != bytes@.len() { 1nat } else { 0nat }),
         //@ entry
@@ -201,6 +226,10 @@
         //@ before (subs,bytes)=<
         //@ tag tags.no_second_dispatch.subs C13
             proof { assert(!seen.contains(96u16)); seen = seen.insert(96u16) ; }
+            let ghost b_pre = bytes@;
+        //@ after (subs,bytes)=<
+        //@ tag tags.stop C13
+            proof { if curr_len == bytes@.len() { crate::frame::lemma_tail_same_len(bytes@, b_pre); } }
         //@ before returnErr(zvt_builder::ZVTError::DuplicateTag(zvt_builder::Tag(96u16)
         //@ tag tags.duplicate_error_is_true.subs C13
             proof { assert(seen.contains(96u16)) ; }
@@ -244,6 +273,9 @@
         open spec fn self_delimiting() -> bool { false }
         open spec fn dec_rel(b: Seq<u8>, v: &StatusEnquiry, k: int) -> bool { true }
         open spec fn dec_total() -> bool { false }
+        /// the tag loop stops only at the end of the input, in front of something that is no tag, or in front of a tag that
+        /// is not one of this struct's non-repeatable fields
+        open spec fn dec_stop(rest: Seq<u8>) -> bool { rest.len() == 0 || (match <zvt_builder::encoding::Default as zvt_builder::encoding::Encoding<zvt_builder::Tag>>::spec_dec(rest) { None => true, Some((t, _)) => t.0 != 8178u16 }) }
         /// the tag loop is specified by totality and frame clauses only
         open spec fn functional() -> bool { false }
         //@ fn exp:zvt | impl zvt_builder::encoding::Encoding<StatusEnquiry> for zvt_builder::encoding::Default | encode | mod=packets::tlv props=C03
@@ -256,6 +288,10 @@
         //@ tag tags.bookkeeping C13
                     actual_tags@ =~= seen,
                     required_tags@ =~= Set::<u16>::empty().difference(seen),
+        //@ tag tags.stop C13
+                    curr_len == bytes@.len() ==> <zvt_builder::encoding::Default as zvt_builder::encoding::Encoding<StatusEnquiry>>::dec_stop(bytes@),
+                ensures
+                    <zvt_builder::encoding::Default as zvt_builder::encoding::Encoding<StatusEnquiry>>::dec_stop(bytes@),
         //@ tag tags.loop.decreases C02
                 decreases bytes@.len() + (if curr_len != bytes@.len() { 1nat } else { 0nat }),
         //@ entry
@@ -302,6 +338,9 @@
         open spec fn self_delimiting() -> bool { false }
         open spec fn dec_rel(b: Seq<u8>, v: &DeviceInformation, k: int) -> bool { true }
         open spec fn dec_total() -> bool { false }
+        /// the tag loop stops only at the end of the input, in front of something that is no tag, or in front of a tag that
+        /// is not one of this struct's non-repeatable fields
+        open spec fn dec_stop(rest: Seq<u8>) -> bool { rest.len() == 0 || (match <zvt_builder::encoding::Default as zvt_builder::encoding::Encoding<zvt_builder::Tag>>::spec_dec(rest) { None => true, Some((t, _)) => t.0 != 8000u16 && t.0 != 8001u16 && t.0 != 8002u16 && t.0 != 8003u16 }) }
         /// the tag loop is specified by totality and frame clauses only
         open spec fn functional() -> bool { false }
         //@ fn exp:zvt | impl zvt_builder::encoding::Encoding<DeviceInformation> for zvt_builder::encoding::Default | encode | mod=packets::tlv props=C03
@@ -314,6 +353,10 @@
         //@ tag tags.bookkeeping C13
                     actual_tags@ =~= seen,
                     required_tags@ =~= Set::<u16>::empty().difference(seen),
+        //@ tag tags.stop C13
+                    curr_len == bytes@.len() ==> <zvt_builder::encoding::Default as zvt_builder::encoding::Encoding<DeviceInformation>>::dec_stop(bytes@),
+                ensures
+                    <zvt_builder::encoding::Default as zvt_builder::encoding::Encoding<DeviceInformation>>::dec_stop(bytes@),
         //@ tag tags.loop.decreases C02
                 decreases bytes@.len() + (if curr_len != bytes@.len() { 1nat } else { 0nat }),
         //@ entry
@@ -378,6 +421,9 @@
         open spec fn self_delimiting() -> bool { false }
         open spec fn dec_rel(b: Seq<u8>, v: &ReceiptPrintoutCompletion, k: int) -> bool { true }
         open spec fn dec_total() -> bool { false }
+        /// the tag loop stops only at the end of the input, in front of something that is no tag, or in front of a tag that
+        /// is not one of this struct's non-repeatable fields
+        open spec fn dec_stop(rest: Seq<u8>) -> bool { rest.len() == 0 || (match <zvt_builder::encoding::Default as zvt_builder::encoding::Encoding<zvt_builder::Tag>>::spec_dec(rest) { None => true, Some((t, _)) => t.0 != 8004u16 && t.0 != 228u16 && t.0 != 52u16 }) }
         /// the tag loop is specified by totality and frame clauses only
         open spec fn functional() -> bool { false }
         //@ fn exp:zvt | impl zvt_builder::encoding::Encoding<ReceiptPrintoutCompletion> for zvt_builder::encoding::Default | encode | mod=packets::tlv props=C03
@@ -390,6 +436,10 @@
         //@ tag tags.bookkeeping C13
                     actual_tags@ =~= seen,
                     required_tags@ =~= Set::<u16>::empty().difference(seen),
+        //@ tag tags.stop C13
+                    curr_len == bytes@.len() ==> <zvt_builder::encoding::Default as zvt_builder::encoding::Encoding<ReceiptPrintoutCompletion>>::dec_stop(bytes@),
+                ensures
+                    <zvt_builder::encoding::Default as zvt_builder::encoding::Encoding<ReceiptPrintoutCompletion>>::dec_stop(bytes@),
         //@ tag tags.loop.decreases C02
                 decreases bytes@.len() + (if curr_len != bytes@.len() { 1nat } else { 0nat }),
         //@ entry
@@ -448,6 +498,9 @@
         open spec fn self_delimiting() -> bool { false }
         open spec fn dec_rel(b: Seq<u8>, v: &ReservationAbort, k: int) -> bool { true }
         open spec fn dec_total() -> bool { false }
+        /// the tag loop stops only at the end of the input, in front of something that is no tag, or in front of a tag that
+        /// is not one of this struct's non-repeatable fields
+        open spec fn dec_stop(rest: Seq<u8>) -> bool { rest.len() == 0 || (match <zvt_builder::encoding::Default as zvt_builder::encoding::Encoding<zvt_builder::Tag>>::spec_dec(rest) { None => true, Some((t, _)) => t.0 != 7958u16 && t.0 != 7959u16 }) }
         /// the tag loop is specified by totality and frame clauses only
         open spec fn functional() -> bool { false }
         //@ fn exp:zvt | impl zvt_builder::encoding::Encoding<ReservationAbort> for zvt_builder::encoding::Default | encode | mod=packets::tlv props=C03
@@ -460,6 +513,10 @@
         //@ tag tags.bookkeeping C13
                     actual_tags@ =~= seen,
                     required_tags@ =~= Set::<u16>::empty().difference(seen),
+        //@ tag tags.stop C13
+                    curr_len == bytes@.len() ==> <zvt_builder::encoding::Default as zvt_builder::encoding::Encoding<ReservationAbort>>::dec_stop(bytes@),
+                ensures
+                    <zvt_builder::encoding::Default as zvt_builder::encoding::Encoding<ReservationAbort>>::dec_stop(bytes@),
         //@ tag tags.loop.decreases C02
                 decreases bytes@.len() + (if curr_len != bytes@.len() { 1nat } else { 0nat }),
         //@ entry
@@ -512,6 +569,9 @@
         open spec fn self_delimiting() -> bool { false }
         open spec fn dec_rel(b: Seq<u8>, v: &Bmp60, k: int) -> bool { true }
         open spec fn dec_total() -> bool { false }
+        /// the tag loop stops only at the end of the input, in front of something that is no tag, or in front of a tag that
+        /// is not one of this struct's non-repeatable fields
+        open spec fn dec_stop(rest: Seq<u8>) -> bool { rest.len() == 0 || (match <zvt_builder::encoding::Default as zvt_builder::encoding::Encoding<zvt_builder::Tag>>::spec_dec(rest) { None => true, Some((t, _)) => t.0 != 8034u16 && t.0 != 8035u16 }) }
         /// the tag loop is specified by totality and frame clauses only
         open spec fn functional() -> bool { false }
         //@ fn exp:zvt | impl zvt_builder::encoding::Encoding<Bmp60> for zvt_builder::encoding::Default | encode | mod=packets::tlv props=C03
@@ -524,6 +584,10 @@
         //@ tag tags.bookkeeping C13
                     actual_tags@ =~= seen,
                     required_tags@ =~= set![8034u16, 8035u16].difference(seen),
+        //@ tag tags.stop C13
+                    curr_len == bytes@.len() ==> <zvt_builder::encoding::Default as zvt_builder::encoding::Encoding<Bmp60>>::dec_stop(bytes@),
+                ensures
+                    <zvt_builder::encoding::Default as zvt_builder::encoding::Encoding<Bmp60>>::dec_stop(bytes@),
         //@ tag tags.loop.decreases C02
                 decreases bytes@.len() + (if curr_len != bytes@.len() { 1nat } else { 0nat }),
         //@ entry
@@ -576,6 +640,9 @@
         open spec fn self_delimiting() -> bool { false }
         open spec fn dec_rel(b: Seq<u8>, v: &AuthData, k: int) -> bool { true }
         open spec fn dec_total() -> bool { false }
+        /// the tag loop stops only at the end of the input, in front of something that is no tag, or in front of a tag that
+        /// is not one of this struct's non-repeatable fields
+        open spec fn dec_stop(rest: Seq<u8>) -> bool { rest.len() == 0 || (match <zvt_builder::encoding::Default as zvt_builder::encoding::Encoding<zvt_builder::Tag>>::spec_dec(rest) { None => true, Some((t, _)) => t.0 != 233u16 }) }
         /// the tag loop is specified by totality and frame clauses only
         open spec fn functional() -> bool { false }
         //@ fn exp:zvt | impl zvt_builder::encoding::Encoding<AuthData> for zvt_builder::encoding::Default | encode | mod=packets::tlv props=C03
@@ -588,6 +655,10 @@
         //@ tag tags.bookkeeping C13
                     actual_tags@ =~= seen,
                     required_tags@ =~= Set::<u16>::empty().difference(seen),
+        //@ tag tags.stop C13
+                    curr_len == bytes@.len() ==> <zvt_builder::encoding::Default as zvt_builder::encoding::Encoding<AuthData>>::dec_stop(bytes@),
+                ensures
+                    <zvt_builder::encoding::Default as zvt_builder::encoding::Encoding<AuthData>>::dec_stop(bytes@),
         //@ tag tags.loop.decreases C02
                 decreases bytes@.len() + (if curr_len != bytes@.len() { 1nat } else { 0nat }),
         //@ entry
@@ -634,6 +705,9 @@
         open spec fn self_delimiting() -> bool { false }
         open spec fn dec_rel(b: Seq<u8>, v: &PreAuthData, k: int) -> bool { true }
         open spec fn dec_total() -> bool { false }
+        /// the tag loop stops only at the end of the input, in front of something that is no tag, or in front of a tag that
+        /// is not one of this struct's non-repeatable fields
+        open spec fn dec_stop(rest: Seq<u8>) -> bool { rest.len() == 0 || (match <zvt_builder::encoding::Default as zvt_builder::encoding::Encoding<zvt_builder::Tag>>::spec_dec(rest) { None => true, Some((t, _)) => t.0 != 233u16 }) }
         /// the tag loop is specified by totality and frame clauses only
         open spec fn functional() -> bool { false }
         //@ fn exp:zvt | impl zvt_builder::encoding::Encoding<PreAuthData> for zvt_builder::encoding::Default | encode | mod=packets::tlv props=C03
@@ -646,6 +720,10 @@
         //@ tag tags.bookkeeping C13
                     actual_tags@ =~= seen,
                     required_tags@ =~= Set::<u16>::empty().difference(seen),
+        //@ tag tags.stop C13
+                    curr_len == bytes@.len() ==> <zvt_builder::encoding::Default as zvt_builder::encoding::Encoding<PreAuthData>>::dec_stop(bytes@),
+                ensures
+                    <zvt_builder::encoding::Default as zvt_builder::encoding::Encoding<PreAuthData>>::dec_stop(bytes@),
         //@ tag tags.loop.decreases C02
                 decreases bytes@.len() + (if curr_len != bytes@.len() { 1nat } else { 0nat }),
         //@ entry
@@ -692,6 +770,9 @@
         open spec fn self_delimiting() -> bool { false }
         open spec fn dec_rel(b: Seq<u8>, v: &Diagnosis, k: int) -> bool { true }
         open spec fn dec_total() -> bool { false }
+        /// the tag loop stops only at the end of the input, in front of something that is no tag, or in front of a tag that
+        /// is not one of this struct's non-repeatable fields
+        open spec fn dec_stop(rest: Seq<u8>) -> bool { rest.len() == 0 || (match <zvt_builder::encoding::Default as zvt_builder::encoding::Encoding<zvt_builder::Tag>>::spec_dec(rest) { None => true, Some((t, _)) => t.0 != 27u16 }) }
         /// the tag loop is specified by totality and frame clauses only
         open spec fn functional() -> bool { false }
         //@ fn exp:zvt | impl zvt_builder::encoding::Encoding<Diagnosis> for zvt_builder::encoding::Default | encode | mod=packets::tlv props=C03
@@ -704,6 +785,10 @@
         //@ tag tags.bookkeeping C13
                     actual_tags@ =~= seen,
                     required_tags@ =~= Set::<u16>::empty().difference(seen),
+        //@ tag tags.stop C13
+                    curr_len == bytes@.len() ==> <zvt_builder::encoding::Default as zvt_builder::encoding::Encoding<Diagnosis>>::dec_stop(bytes@),
+                ensures
+                    <zvt_builder::encoding::Default as zvt_builder::encoding::Encoding<Diagnosis>>::dec_stop(bytes@),
         //@ tag tags.loop.decreases C02
                 decreases bytes@.len() + (if curr_len != bytes@.len() { 1nat } else { 0nat }),
         //@ entry
@@ -750,6 +835,9 @@
         open spec fn self_delimiting() -> bool { false }
         open spec fn dec_rel(b: Seq<u8>, v: &ReadCard, k: int) -> bool { true }
         open spec fn dec_total() -> bool { false }
+        /// the tag loop stops only at the end of the input, in front of something that is no tag, or in front of a tag that
+        /// is not one of this struct's non-repeatable fields
+        open spec fn dec_stop(rest: Seq<u8>) -> bool { rest.len() == 0 || (match <zvt_builder::encoding::Default as zvt_builder::encoding::Encoding<zvt_builder::Tag>>::spec_dec(rest) { None => true, Some((t, _)) => t.0 != 7957u16 && t.0 != 8032u16 }) }
         /// the tag loop is specified by totality and frame clauses only
         open spec fn functional() -> bool { false }
         //@ fn exp:zvt | impl zvt_builder::encoding::Encoding<ReadCard> for zvt_builder::encoding::Default | encode | mod=packets::tlv props=C03
@@ -762,6 +850,10 @@
         //@ tag tags.bookkeeping C13
                     actual_tags@ =~= seen,
                     required_tags@ =~= Set::<u16>::empty().difference(seen),
+        //@ tag tags.stop C13
+                    curr_len == bytes@.len() ==> <zvt_builder::encoding::Default as zvt_builder::encoding::Encoding<ReadCard>>::dec_stop(bytes@),
+                ensures
+                    <zvt_builder::encoding::Default as zvt_builder::encoding::Encoding<ReadCard>>::dec_stop(bytes@),
         //@ tag tags.loop.decreases C02
                 decreases bytes@.len() + (if curr_len != bytes@.len() { 1nat } else { 0nat }),
         //@ entry
@@ -814,6 +906,9 @@
         open spec fn self_delimiting() -> bool { false }
         open spec fn dec_rel(b: Seq<u8>, v: &ZvtString, k: int) -> bool { true }
         open spec fn dec_total() -> bool { false }
+        /// the tag loop stops only at the end of the input, in front of something that is no tag, or in front of a tag that
+        /// is not one of this struct's non-repeatable fields
+        open spec fn dec_stop(rest: Seq<u8>) -> bool { rest.len() == 0 || (match <zvt_builder::encoding::Default as zvt_builder::encoding::Encoding<zvt_builder::Tag>>::spec_dec(rest) { None => true, Some((t, _)) => t.0 != 7u16 }) }
         /// the tag loop is specified by totality and frame clauses only
         open spec fn functional() -> bool { false }
         //@ fn exp:zvt | impl zvt_builder::encoding::Encoding<ZvtString> for zvt_builder::encoding::Default | encode | mod=packets::tlv props=C03
@@ -826,6 +921,10 @@
         //@ tag tags.bookkeeping C13
                     actual_tags@ =~= seen,
                     required_tags@ =~= set![7u16].difference(seen),
+        //@ tag tags.stop C13
+                    curr_len == bytes@.len() ==> <zvt_builder::encoding::Default as zvt_builder::encoding::Encoding<ZvtString>>::dec_stop(bytes@),
+                ensures
+                    <zvt_builder::encoding::Default as zvt_builder::encoding::Encoding<ZvtString>>::dec_stop(bytes@),
         //@ tag tags.loop.decreases C02
                 decreases bytes@.len() + (if curr_len != bytes@.len() { 1nat } else { 0nat }),
         //@ entry
@@ -872,6 +971,9 @@
         open spec fn self_delimiting() -> bool { false }
         open spec fn dec_rel(b: Seq<u8>, v: &TextLines, k: int) -> bool { true }
         open spec fn dec_total() -> bool { false }
+        /// the tag loop stops only at the end of the input, in front of something that is no tag, or in front of a tag that
+        /// is not one of this struct's non-repeatable fields
+        open spec fn dec_stop(rest: Seq<u8>) -> bool { rest.len() == 0 || (match <zvt_builder::encoding::Default as zvt_builder::encoding::Encoding<zvt_builder::Tag>>::spec_dec(rest) { None => true, Some((t, _)) => t.0 != 9u16 }) }
         /// the tag loop is specified by totality and frame clauses only
         open spec fn functional() -> bool { false }
         //@ fn exp:zvt | impl zvt_builder::encoding::Encoding<TextLines> for zvt_builder::encoding::Default | encode | mod=packets::tlv props=C03
@@ -884,6 +986,10 @@
         //@ tag tags.bookkeeping C13
                     actual_tags@ =~= seen,
                     required_tags@ =~= Set::<u16>::empty().difference(seen),
+        //@ tag tags.stop C13
+                    curr_len == bytes@.len() ==> <zvt_builder::encoding::Default as zvt_builder::encoding::Encoding<TextLines>>::dec_stop(bytes@),
+                ensures
+                    <zvt_builder::encoding::Default as zvt_builder::encoding::Encoding<TextLines>>::dec_stop(bytes@),
         //@ tag tags.loop.decreases C02
                 decreases bytes@.len() + (if curr_len != bytes@.len() { 1nat } else { 0nat }),
         //@ entry
@@ -893,6 +999,10 @@
         //@ before (lines,bytes)=<
         //@ tag tags.no_second_dispatch.lines C13
             proof { assert(!seen.contains(7u16)); seen = seen.insert(7u16) ; }
+            let ghost b_pre = bytes@;
+        //@ after (lines,bytes)=<
+        //@ tag tags.stop C13
+            proof { if curr_len == bytes@.len() { crate::frame::lemma_tail_same_len(bytes@, b_pre); } }
         //@ before returnErr(zvt_builder::ZVTError::DuplicateTag(zvt_builder::Tag(7u16)
         //@ tag tags.duplicate_error_is_true.lines C13
             proof { assert(seen.contains(7u16)) ; }
@@ -936,6 +1046,9 @@
         open spec fn self_delimiting() -> bool { false }
         open spec fn dec_rel(b: Seq<u8>, v: &PrintTextBlock, k: int) -> bool { true }
         open spec fn dec_total() -> bool { false }
+        /// the tag loop stops only at the end of the input, in front of something that is no tag, or in front of a tag that
+        /// is not one of this struct's non-repeatable fields
+        open spec fn dec_stop(rest: Seq<u8>) -> bool { rest.len() == 0 || (match <zvt_builder::encoding::Default as zvt_builder::encoding::Encoding<zvt_builder::Tag>>::spec_dec(rest) { None => true, Some((t, _)) => t.0 != 7943u16 && t.0 != 37u16 }) }
         /// the tag loop is specified by totality and frame clauses only
         open spec fn functional() -> bool { false }
         //@ fn exp:zvt | impl zvt_builder::encoding::Encoding<PrintTextBlock> for zvt_builder::encoding::Default | encode | mod=packets::tlv props=C03
@@ -948,6 +1061,10 @@
         //@ tag tags.bookkeeping C13
                     actual_tags@ =~= seen,
                     required_tags@ =~= Set::<u16>::empty().difference(seen),
+        //@ tag tags.stop C13
+                    curr_len == bytes@.len() ==> <zvt_builder::encoding::Default as zvt_builder::encoding::Encoding<PrintTextBlock>>::dec_stop(bytes@),
+                ensures
+                    <zvt_builder::encoding::Default as zvt_builder::encoding::Encoding<PrintTextBlock>>::dec_stop(bytes@),
         //@ tag tags.loop.decreases C02
                 decreases bytes@.len() + (if curr_len != bytes@.len() { 1nat } else { 0nat }),
         //@ entry
@@ -1000,6 +1117,9 @@
         open spec fn self_delimiting() -> bool { false }
         open spec fn dec_rel(b: Seq<u8>, v: &Registration, k: int) -> bool { true }
         open spec fn dec_total() -> bool { false }
+        /// the tag loop stops only at the end of the input, in front of something that is no tag, or in front of a tag that
+        /// is not one of this struct's non-repeatable fields
+        open spec fn dec_stop(rest: Seq<u8>) -> bool { rest.len() == 0 || (match <zvt_builder::encoding::Default as zvt_builder::encoding::Encoding<zvt_builder::Tag>>::spec_dec(rest) { None => true, Some((t, _)) => t.0 != 26u16 }) }
         /// the tag loop is specified by totality and frame clauses only
         open spec fn functional() -> bool { false }
         //@ fn exp:zvt | impl zvt_builder::encoding::Encoding<Registration> for zvt_builder::encoding::Default | encode | mod=packets::tlv props=C03
@@ -1012,6 +1132,10 @@
         //@ tag tags.bookkeeping C13
                     actual_tags@ =~= seen,
                     required_tags@ =~= Set::<u16>::empty().difference(seen),
+        //@ tag tags.stop C13
+                    curr_len == bytes@.len() ==> <zvt_builder::encoding::Default as zvt_builder::encoding::Encoding<Registration>>::dec_stop(bytes@),
+                ensures
+                    <zvt_builder::encoding::Default as zvt_builder::encoding::Encoding<Registration>>::dec_stop(bytes@),
         //@ tag tags.loop.decreases C02
                 decreases bytes@.len() + (if curr_len != bytes@.len() { 1nat } else { 0nat }),
         //@ entry
